@@ -2,6 +2,8 @@ import SphericalVerif.Props.C02
 import SphericalVerif.Props.HKernel
 import SphericalVerif.Props.Routes
 import SphericalVerif.Props.Finite
+import SphericalVerif.Props.GDFamily
+import SphericalVerif.Props.DocD
 #print axioms C02.sYlm_low_exact_zero
 #print axioms C02.sYlm_reads_in_narrow_wedge
 #print axioms HKernel.runH_pure
@@ -32,3 +34,35 @@ import SphericalVerif.Props.Finite
 #print axioms Finite.eq_none_of
 #print axioms Finite.tables_faulty_entries
 #print axioms Finite.valW_fault_outside_wedge
+#print axioms GDFamily.valW_eq_of_IsGDFamily
+#print axioms GDFamily.valV_eq_of_IsGDFamily
+#print axioms GDFamily.model_eq_of_IsGDFamily
+#print axioms GDFamily.objd_eq_of_IsGDFamily
+#print axioms GDFamily.objd_eq_doc_of_IsGDFamily
+#print axioms GDFamily.isGDFamily_valExt'
+#print axioms GDFamily.IsGDFamily.eq_valExt
+#print axioms GDFamily.IsGDFamily.unique
+#print axioms GDFamily.IsGDFamily.rel50_full
+#print axioms GDFamily.rel50_diag_of_symm
+#print axioms GDFamily.rel50_border_coeff
+#print axioms GDFamily.coefficients
+#print axioms GDFamily.values_ell_le_one
+#print axioms GDFamily.eq_doc_ell1
+#print axioms GDFamily.eq_doc_ell2
+#print axioms GDFamily.eq_pole_zero
+#print axioms GDFamily.eq_pole_pi
+#print axioms DocD.docd_generating
+#print axioms DocD.docd_ell0
+#print axioms DocD.docd_ell1
+#print axioms DocD.symm_swap_doc
+#print axioms DocD.symm_neg_doc
+#print axioms DocD.rel50_doc
+#print axioms DocD.rel41_doc
+#print axioms DocD.col0_doc
+#print axioms DocD.isGDFamily_doc
+#print axioms DocD.objd_eq_docd
+#print axioms DocD.model_eq_Hdoc
+#print axioms DocD.docd_ell2
+#print axioms DocD.valExt_eq_Hdoc
+#print axioms DocD.rel50_doc_full
+#print axioms DocD.objd_eq_docd_angle
